@@ -5,13 +5,17 @@ package, register/unregister/finalize orders, reference-counter moves and memory
 the extracted model; both print the call's result and sc_memory_status of every live package after EVERY call.
 Oracle: an independent ledger in this file (live blocks per package, their bytes), evaluated on every line.
 A second section runs create...destroy lifecycles of library objects (several modules) and checks that every counter
-returns to where it started.  A third section (parallel) runs every parallel algorithm of libsc on the simulated MPI
+returns to where it started; a further one (sized) builds the library's own containers, options and I/O objects at
+sizes ACROSS their internal thresholds (hash table rehash at 1020 / 4076 / 16300 entries and the shrink points, memory
+stamps, array size classes, dictionary growth) and brackets each create ... destroy the same way (a leak is reported
+with object, size and lifecycle phase).  A third section (parallel) runs every parallel algorithm of libsc on the simulated MPI
 (tools/simmpi) for every communicator size 1..9 and reads sc_memory_status of the libsc and the default package at
 barriers before and after EVERY library call: once every rank destroyed what it held the counters must be where they
 were (a leak is reported with call, P, rank, block size and input); sc_finalize_noabort () must return 0 at the end.
 T1: Gen/AllocC10.v (pointer arithmetic, package table) and Gen/LedgerC10.v (ownership events of sc_notify_recursive,
-proved balanced on every path) are regenerated from the working tree before the theorems are checked."""
-import os, sys, json
+sc_hash_maybe_resize and the create / destroy pairs of sc_hash, sc_hash_array, sc_keyvalue, proved balanced on every
+path) are regenerated from the working tree before the theorems are checked."""
+import os, sys, json, re
 import vlib
 
 NPK = 32
@@ -589,6 +593,7 @@ def run(ctx):
     if rc != 0 and nviol == 0:
         ctx.tie_broken("c10 harness run", "exit %s: %s" % (rc, err[-1500:]))
     lifecycle(ctx, v)
+    sized(ctx, v)
     parallel(ctx)
     ctx.cov["disagreements_checked"] = nops
     ctx.cov["rule"] = ("a case is one history of allocation / package calls; after EVERY call the result tokens (handle, ptr mod 8, ptr - raw, the two "
@@ -618,7 +623,8 @@ def run(ctx):
                                "sc_package_rc_count_add is reached through src/sc_private.h (reference counters only move in debug builds otherwise)",
                                "parallel lifecycles: tools/simmpi (scheduler, barriers: nothing runs on any rank between the two barriers of a reading), the harness c10_parallel.c; "
                                "the attribution of a leaked block to a rank (wrapped malloc, bookkeeping words of sc_malloc_aligned) is diagnosis only",
-                               "T1 ledger of sc_notify_recursive: tools/c2g/ledgerlib.py (table C call -> ownership event, refusal of everything else that touches an array) and the abstraction "
+                               "sized lifecycles: the harness c10_sized.c (every object is destroyed before the second reading; mempool->elem_count read for external allocators)",
+                               "T1 ledgers of sc_notify_recursive, sc_hash_maybe_resize, sc_hash / sc_hash_array / sc_keyvalue new-destroy: tools/c2g/ledgerlib.py (table C call -> ownership event, refusal of everything else that touches an array) and the abstraction "
                                "of an owner sc_array_t to 'holds at most one block' (C08_ledger_balanced for resize / push)"]
     ctx.assumptions += ["histories satisfy the documented preconditions (legal_step): package -1 or registered, a block is freed/reallocated with the package it was obtained for, no use after free, writes inside the requested size",
                         "addresses and sizes below 2^62 (no wrap of size_t in alloc_size)"]
@@ -648,6 +654,65 @@ def lifecycle(ctx, v):
     if rc != 0 or n == 0:
         ctx.violation("life-crash", "lifecycle harness failed (exit %s): %s" % (rc, err[-1200:]), dict(stderr=err[-3000:]))
     ctx.notes["lifecycles"] = n
+
+
+# ----------------------------------------------------------------------------------------------------
+# serial create ... destroy lifecycles of the library's own objects, sized ACROSS their internal thresholds (hash table
+# rehash at 1020 / 4076 / 16300 entries and the shrink points on the way down, memory stamps of 4096 bytes, array size
+# classes, iniparser dictionary growth at 128 / 256 keys, growing sink buffers): every lifecycle is bracketed by
+# sc_memory_status of the libsc and the default package with everything destroyed; an external allocator must have no
+# element outstanding; sc_finalize_noabort () == 0 at the end
+# ----------------------------------------------------------------------------------------------------
+def sized(ctx, v):
+    src = os.path.join(vlib.TOOLS, "harness", "c10_sized.c")
+    if not os.path.exists(src):
+        ctx.tie_broken("c10 sized lifecycle harness", "tools/harness/c10_sized.c is missing")
+        return
+    exe = ctx.cc([src], os.path.join(ctx.scratch, "c10_sized"), v)
+    env = dict(os.environ, ASAN_OPTIONS="detect_leaks=1:abort_on_error=0", UBSAN_OPTIONS="print_stacktrace=1")
+    rc, out, err = ctx.run_lines([exe, str(ctx.seed), ctx.scratch, "quick" if ctx.quick else "thorough"], "", timeout=(300 if ctx.quick else 1500), env=env)
+    rows = [l.split() for l in out if l.startswith("SIZED ")]
+    notes = [l for l in out if l.startswith("NOTE ")]
+    dist, bad, fin = {}, [], None
+    for w in rows:
+        if len(w) != 7:
+            ctx.tie_broken("c10 sized lifecycle harness output", " ".join(w)[:200])
+            continue
+        obj, size, phase, dl, dd, pool = w[1], int(w[2]), w[3], int(w[4]), int(w[5]), int(w[6])
+        if obj == "finalize":
+            fin = dl
+            continue
+        ctx.count_case(("sized", obj, size, phase), nontrivial=size > 0)
+        dist[obj] = dist.get(obj, 0) + 1
+        if dl or dd or pool:
+            bad.append((obj, size, phase, dl, dd, pool))
+    # one report per (object, kind of phase): the smallest size that shows it
+    shown = {}
+    for b in sorted(bad, key=lambda b: (b[1], len(b[2]))):
+        key = (b[0], re.sub(r"\d+", "N", b[2]))
+        shown.setdefault(key, b)
+    for (obj, pk), (o, size, phase, dl, dd, pool) in list(shown.items())[:6]:
+        same = sorted(set(b[1] for b in bad if b[0] == obj))
+        ctx.violation("sized-%s-%s" % (obj, pk), "%s with %d entries, lifecycle %s: after destroying everything sc_memory_status (sc_package_id) is off by %d, (-1) by %d%s; "
+                      "smallest size of this object that shows it: %d (clean below: %s), unbalanced sizes: %s" % (
+                          obj, size, phase.replace("+", ", "), dl, dd, (", %d element(s) of the caller's allocator never returned" % pool) if pool else "", size,
+                          [x for x in sorted(set(int(w[2]) for w in rows if w[1] == obj)) if x < size][-3:], same[:12]),
+                      dict(object=obj, size=size, phase=phase, status_libsc=dl, status_default=dd, outstanding_pool_elements=pool, unbalanced=[list(b) for b in bad[:40]]))
+    if rc != 0 or fin is None:
+        m = [l for l in err.split("\n") if "ERROR" in l or "runtime error" in l or "SUMMARY" in l]
+        last = " ".join(rows[-1][1:4]) if rows else "-"
+        ctx.violation("sized-crash", "sized lifecycle harness failed (exit %s) after lifecycle [%s]: %s" % (rc, last, " | ".join(m)[:500] or err[-400:]), dict(stderr=err[-3000:], last=last))
+    elif fin != 0 and not bad:
+        ctx.violation("sized-finalize", "after %d sized lifecycles, each balanced, sc_finalize_noabort () returned %d" % (len(rows) - 1, fin), dict(finalize=fin))
+    ctx.notes["sized_lifecycles"] = dict(lifecycles=len(rows) - (1 if fin is not None else 0), unbalanced=len(bad), per_object=dist, finalize=fin, notes=notes[:5])
+    ctx.notes["sized_input_distribution"] = ("sc_hash (own / external allocator, scrambling and identity hash): 0, 1, 255, 1019, 1020, 1021, 4075, 4076, 4077, 16299, 16300, 16301 entries x "
+                                             "(destroy; truncate + reinsert; unlink + unlink_destroy; remove down to 0, 1, 255..257, 767..769, 1024, 3840, 4096; remove and insert again); "
+                                             "sc_hash_array (destroy, truncate, rip), sc_keyvalue (destroy, unset all, overwrite + unset odd) and sc_statistics at 0..16300 entries; sc_array of 1 / 8 / 24-byte "
+                                             "elements at every 2^k - 1, 2^k, 2^k + 1 up to 65537 (push, copy, resize down through all classes and up, view); sc_mempool / sc_mstamp of 8, 24, 40, 4096, "
+                                             "5000-byte items at m * per_stamp - 1, +0, +1 items (free all, free half + truncate, destroy with items outstanding, zero_and_persist); sc_list own / external "
+                                             "allocator around 170 / 340 links; sc_recycle_array, sc_avl up to 5000; sc_options with 1..600 options (parse, save, load: iniparser dictionary at 128 / 256); "
+                                             "sc_io buffer sink / source, file sink / source with mirror, file_save / load, codec at 0..300000 bytes")
+    ctx.log("sized lifecycles: %d, %d unbalanced, finalize %s" % (len(rows), len(bad), fin))
 
 
 # ----------------------------------------------------------------------------------------------------
